@@ -1,0 +1,58 @@
+//go:build verif
+
+// Contracts for package nlp, checked by /verif/govc (comment-only file; compiled only
+// with the build tag "verif", which no build of the application uses).
+package nlp
+
+// TF-IDF re-ranker: shape invariant and the facts its callers rely on.
+//@ pure func wfTFIDF(s *TFIDFSearcher) bool = s != nil && len(s.commandTF) == len(s.commands) && len(s.commandNorms) == len(s.commands) && (forall w string :: (w in s.vocabulary) ==> 0 <= s.vocabulary[w] && s.vocabulary[w] < len(s.idf))
+
+//@ func (*TFIDFSearcher).Search
+//@   requires wfTFIDF(s) && limit >= 0
+//@   modifies nothing
+//@   ensures[nlp.tfidf-search] fresh(result) && len(result) <= limit && (forall k int :: 0 <= k && k < len(result) ==> result[k].Similarity > 0.0 && 0 <= result[k].CommandIndex && result[k].CommandIndex < len(s.commands))
+
+//@ func NewQueryProcessor
+//@   modifies nothing
+//@   ensures[nlp.new-processor] result != nil && fresh(result)
+//@ func (*QueryProcessor).ProcessQuery
+//@   modifies nothing
+//@   ensures[nlp.process-query] result != nil && fresh(result)
+//@ func (*ProcessedQuery).GetEnhancedKeywords
+//@   modifies nothing
+//@   ensures[nlp.enhanced-fresh] fresh(result)
+//@ func (*QueryProcessor).GetSynonyms
+//@   modifies nothing
+
+//@ func NewTFIDFSearcher
+//@   modifies nothing
+//@   ensures[nlp.new-tfidf] result != nil && fresh(result) && wfTFIDF(result)
+
+//@ pure func vocabOK(s *TFIDFSearcher, n int) bool = s.vocabulary != nil && fresh(s.vocabulary) && (forall w string :: (w in s.vocabulary) ==> 0 <= s.vocabulary[w] && s.vocabulary[w] < n)
+//@ func (*TFIDFSearcher).buildIndex
+//@   modifies s.*
+//@   ensures[nlp.build-index] wfTFIDF(s) && s.commands == old(s.commands)
+//@ loop 1
+//@   invariant wordCounts != nil && fresh(wordCounts) && len(documents) == len(s.commands) && fresh(documents) && s.commands == old(s.commands)
+//@ loop 2
+//@   invariant wordCounts != nil && fresh(wordCounts) && wordSet != nil && fresh(wordSet) && wordSet != wordCounts && len(documents) == len(s.commands) && fresh(documents) && s.commands == old(s.commands)
+//@ loop 3
+//@   invariant vocabOK(s, vocabIndex) && vocabIndex == len(s.vocabulary) && vocabIndex >= 0 && (forall w string :: (w in s.vocabulary) ==> (w in $visited)) && wordCounts != nil && fresh(wordCounts) && s.vocabulary != wordCounts && len(documents) == len(s.commands) && fresh(documents) && s.commands == old(s.commands)
+//@ loop 4
+//@   invariant vocabOK(s, len(s.idf)) && fresh(s.idf) && len(s.idf) == len(s.vocabulary) && len(documents) == len(s.commands) && fresh(documents) && s.commands == old(s.commands)
+//@ loop 5
+//@   invariant vocabOK(s, len(s.idf)) && fresh(s.idf) && len(documents) == len(s.commands) && fresh(documents) && s.commands == old(s.commands) && len(s.commandTF) == len(s.commands) && fresh(s.commandTF) && len(s.commandNorms) == len(s.commands) && fresh(s.commandNorms)
+//@ loop 6
+//@   invariant vocabOK(s, len(s.idf)) && fresh(s.idf) && len(documents) == len(s.commands) && fresh(documents) && s.commands == old(s.commands) && len(s.commandTF) == len(s.commands) && fresh(s.commandTF) && len(s.commandNorms) == len(s.commands) && fresh(s.commandNorms) && 0 <= i && i < len(documents)
+//@   invariant termCounts != nil && fresh(termCounts) && (forall k int :: (k in termCounts) ==> 0 <= k && k < len(s.idf))
+//@ loop 7
+//@   invariant vocabOK(s, len(s.idf)) && fresh(s.idf) && len(documents) == len(s.commands) && fresh(documents) && s.commands == old(s.commands) && len(s.commandTF) == len(s.commands) && fresh(s.commandTF) && len(s.commandNorms) == len(s.commands) && fresh(s.commandNorms) && 0 <= i && i < len(documents)
+//@   invariant termCounts != nil && fresh(termCounts) && (forall k int :: (k in termCounts) ==> 0 <= k && k < len(s.idf)) && s.commandTF[i] != nil && fresh(s.commandTF[i])
+
+//@ func (*TFIDFSearcher).Search
+//@ loop 1
+//@   invariant queryTermCounts != nil && fresh(queryTermCounts) && queryVector != nil && fresh(queryVector) && queryVector != queryTermCounts && (forall k int :: (k in queryTermCounts) ==> 0 <= k && k < len(s.idf))
+//@ loop 2
+//@   invariant queryTermCounts != nil && fresh(queryTermCounts) && queryVector != nil && fresh(queryVector) && (forall k int :: (k in queryTermCounts) ==> 0 <= k && k < len(s.idf))
+//@ loop 3
+//@   invariant forall k int :: 0 <= k && k < len(results) ==> results[k].Similarity > 0.0 && 0 <= results[k].CommandIndex && results[k].CommandIndex < len(s.commands)
